@@ -93,6 +93,13 @@ let handle = function
     let mcrc = zcrc_of_zlist (List.map (fun b -> zb.(b land 255)) (Array.to_list log)) in
     Printf.sprintf "proto n=%d log=%d:%08x disk=%d:%08x buf=%d fatal=%b" (List.length fx) n mcrc
       (List.length s1.p_disk) (zcrc_of_zlist s1.p_disk) (List.length s1.p_buf) s1.p_fatal
+  | ["img"; dir; crc] ->
+    (* Backup.open_image on <dir>/bkp *)
+    let img = zlist_of_string (read_file (dir ^ "/bkp")) in
+    let ccrc = (int_of_string crc) land 1 = 1 in
+    let sp = (match split_image img with Some (m, w) -> Printf.sprintf "%d+%d" (List.length m) (List.length w) | None -> "no") in
+    let ((v, m), ops) = open_image ccrc img in
+    Printf.sprintf "img split=%s rc=%s applied=%d:%s main=%d:%08x" sp (vs v) (List.length ops) (fnv ops) (List.length m) (zcrc_of_zlist m)
   | ["crc"; h] -> string_of_z (crc32 (bytes_of_hex h) Z0)
   | [] -> ""
   | l -> "?" ^ String.concat " " l
